@@ -1,4 +1,5 @@
 """C20 A name used in a script compiles to the id its target has in the output file (structural clauses)."""
+import re
 from common import Report
 from facts import hir_walk, op_local, op_place, place_local, place_proj
 from rules import flow, arms
@@ -184,6 +185,27 @@ def run(db, tier):
     emits = any(t.get("f", "").endswith("::emit") for _, t in wi.calls())
     rep.check(bool(gi) and emits, "R-LOOKUP", "write_instance|missing-object->error", wi.loc, "the object index is its position in the written object map; a missing name is an error",
               "write_instance does not look the object up with get_index_of / report missing names")
+    # ---------------- R-WRITE-ORDER: things are written in the order in which they were numbered
+    rep.rule("R-WRITE-ORDER", "the writer functions of src/formats emit scripts / sprites / subs / objects in the order of the in-memory tables "
+                              "(the order the compile-time ids were taken from): no sort, reverse, swap or de-duplication happens between the table and the file")
+    REORDER = re.compile(r"(<impl \[T\]>::(sort\w*|reverse|rotate_\w+|swap)|Iterator::rev$|DoubleEndedIterator::rev$|Vec::<T, A>::(swap_remove|dedup\w*|sort\w*)|"
+                         r"indexmap::map::IndexMap::<K, V, S>::(sort\w*|reverse|swap_\w+|move_index|shift_\w+)|itertools::Itertools::(sorted\w*|unique\w*|rev))")
+    n_w = 0
+    for g in sorted(db.fns.values(), key=lambda g: (g.file, g.line)):
+        rid = g.parent or g.id
+        while rid in db.fns and db.fns[rid].parent:
+            rid = db.fns[rid].parent
+        if g.gen or not g.file.startswith("src/formats/") or not rid.rsplit("::", 1)[-1].startswith("write_"):
+            continue
+        n_w += 1
+        rep.fn(g)
+        for bi, t in g.calls():
+            c = t.get("f", "")
+            if REORDER.search(c) and not g.blocks[bi].get("cleanup"):
+                rep.bad("R-WRITE-ORDER", "%s|%s" % (rid, c.rsplit("::", 1)[-1]), "%s:%d" % (g.file, t["ln"]),
+                        "%s in %s changes the order in which table entries are written, but names were compiled to ids/indices in table order" % (c, rid.rsplit("::", 1)[-1]))
+    rep.check(True, "R-WRITE-ORDER", "writers|no reordering call", "src/formats", "%d writer functions (with closures) scanned; none reorders what it writes" % n_w, "")
+    rep.floor("writer functions of src/formats", n_w, 40)
     return rep
 
 
